@@ -616,6 +616,36 @@ def tag_paths4(ctx, tr):
                 ctx.tag('unrelated_event_inline_under_timeout')
 
 
+def eval_c18(ctx, tr, finished):
+    # expect() as a scenario step: an expect that names one event must get exactly that event if its first handler on that bus started
+    # while the call was pending; afterwards no temporary handler is left in the registry
+    for b in tr.recs:
+        if b.kind != 'EXPB':
+            continue
+        e = next((r for r in tr.recs if r.kind == 'EXPE' and r.by == b.by and r.seq > b.seq), None)
+        ctx.check('C18.terminates', e is not None, by=b.by)
+        if e is None or b.f.get('want') is None:
+            continue
+        want = b.want
+        first = next((x for x in tr.E if x.bus == b.bus and x.ev == want and x.seq > b.seq), None)
+        lastx = max([x.seq for x in tr.recs if x.kind == 'X' and x.bus == b.bus and x.ev == want] or [None], key=lambda v: -1 if v is None else v)
+        if first is not None and lastx is not None and lastx < e.seq:
+            ctx.check('C18.first_match', e.outcome == 'match' and e.ev == want, by=b.by, want=want, got=(e.outcome, e.f.get('ev')),
+                      why='the awaited event was processed on that bus while expect() was pending, yet expect() did not return it')
+            ctx.witness('expect matched')
+        if e.outcome == 'match':
+            ctx.check('C18.never_nonmatching', e.ev == want, by=b.by, want=want, got=e.ev)
+    if any(r.kind == 'EXPB' for r in tr.recs) and finished:
+        # the temporary subscription does not affect the other handlers: every accepted event's own handlers still run exactly once
+        for (bn, lab) in _uniq(tr.accepted()):
+            if lab in excused_events(tr):
+                continue
+            for name in ctx.expected(bn, lab):
+                ctx.check('C18.others_unaffected', tr.count(bn, lab, name) == 1, bus=bn, ev=lab, handler=name, n=tr.count(bn, lab, name))
+        left = [getattr(h, '__name__', '') for bb in ctx.buses.values() for hs in bb.handlers.values() for h in hs if 'expect(' in getattr(h, '__name__', '')]
+        ctx.check('C18.unsubscribed', not left, left=left)
+
+
 def evaluate(ctx, finished):
     tr = Trace(ctx.records)
     tag_paths(ctx, tr)
@@ -638,5 +668,6 @@ def evaluate(ctx, finished):
     eval_c17(ctx, tr, fs, finished)
     eval_c16(ctx, tr)
     eval_c15(ctx, tr)
+    eval_c18(ctx, tr, finished)
     ctx.check('GEN.main_finished', bool(finished))
     return tr
